@@ -19,7 +19,8 @@ Scope
               hMETIS: every file "E V [fmt]" with V <= 4 (thorough 5) vertices and at most 3 (thorough: V<=4 also 4)
               distinct hyperedges, fmt in {absent, 1, 10, 11}, rendered in rotating layout styles (comment lines
               before / between / after, blank lines, indentation, trailing blanks, repeated blanks inside hyperedge
-              lines; two further styles - repeated blanks in the header, tab separators - have their own keys).
+              lines - which the reader explicitly tolerates; one further style, repeated blanks in the header line, is
+              sampled only and has its own key).
               HIF: every undirected document over <= 4 node names whose <= 3 edge names have distinct non-empty
               incidence sets, with rotating choices of which node / edge records are present (all, some, none, an extra
               isolated node record, an edge record without incidences), attrs / weight fields, name types (str / int),
@@ -51,7 +52,13 @@ Limits
   * HIF: two edge names with the same incidence set are not generated (a Hypergraph cannot hold parallel hyperedges);
     for an edge record without incidences and for "directed" documents only "does not raise" is demanded; the
     top-level "metadata" and weights are not checked.
+  * hMETIS files separated by tabs are not generated (the reader rejects them; whether they are "syntactically valid"
+    is not settled by the statement).
   * pickle / json themselves are trusted.
+Execution
+  The work is cut into fixed tasks (container type x weightedness x label kind x part; file families) run in forked
+  worker processes, each with its own temporary directory and its own string-seeded RNG; the parent merges the
+  results in task order, so the explored cases and the evidence do not depend on the number of processes.
 """
 import contextlib
 import copy
@@ -536,14 +543,14 @@ def ref_hgr(text):
 
 
 N_STYLES = 7
-STYLE_HEADER_BLANKS, STYLE_TABS = 7, 8
+STYLE_HEADER_BLANKS = 7
 
 
 def render_hgr(edges, weights, n_vertices, fmt, style, vweights):
     """edges: list of vertex lists (1-based); fmt: None | 1 | 10 | 11."""
-    sep = "\t" if style == STYLE_TABS else ("  " if style == 6 else " ")
+    sep = "  " if style == 6 else " "
     head = [str(len(edges)), str(n_vertices)] + ([str(fmt)] if fmt is not None else [])
-    header = ("  " if style == STYLE_HEADER_BLANKS else ("\t" if style == STYLE_TABS else " ")).join(head)
+    header = ("  " if style == STYLE_HEADER_BLANKS else " ").join(head)
     body = []
     for e, w in zip(edges, weights):
         toks = ([str(w)] if fmt in (1, 11) else []) + [str(v) for v in e]
@@ -573,7 +580,7 @@ def render_hgr(edges, weights, n_vertices, fmt, style, vweights):
 def hgr_case(rep, text, tmpdir, style=0):
     from hypergraphx.readwrite import load_hypergraph
     fn = LOAD + "[hgr]"
-    sub = {STYLE_HEADER_BLANKS: " [repeated blanks in header]", STYLE_TABS: " [tab separators]"}.get(style, "")
+    sub = " [repeated blanks in header]" if style == STYLE_HEADER_BLANKS else ""
     rp = {"part": "hgr", "text": text, "style": style}
     path = _fresh(tmpdir, "g.hgr")
     with open(path, "w") as f:
@@ -710,14 +717,11 @@ def hif_docs_exhaustive(max_nodes, kmax):
 def hif_doc_random(rng, i):
     n = rng.randrange(1, 7)
     k = rng.randrange(0, 4)
-    sets = set()
-    for _ in range(3 * k):
-        if len(sets) >= k:
-            break
-        sets.add(tuple(rng.sample(range(n), rng.randrange(1, n + 1))))
-    sets = sorted(sets, key=lambda s: (rng.random(), s))
     uniq = []
-    for s in sets:
+    for _ in range(3 * k):
+        if len(uniq) >= k:
+            break
+        s = tuple(rng.sample(range(n), rng.randrange(1, n + 1)))
         if frozenset(s) not in [frozenset(x) for x in uniq]:
             uniq.append(s)
     node_names = rng.sample(["a", "b", "c", "n1", "n10", "é", "x y"], n) if rng.random() < 0.6 else rng.sample(range(100), n)
@@ -934,7 +938,7 @@ def _worker(args):
                     hgr_case(rep, text, tmp, style)
         elif what == "hgr-random":
             for j in range(300 if quick else 4000):
-                st = None if j % 25 else (STYLE_HEADER_BLANKS if j % 50 else STYLE_TABS)
+                st = None if j % 25 else STYLE_HEADER_BLANKS
                 text, style, k = hgr_file_random(rng, st)
                 sink.case({"hgr": text}, nontrivial=k > 0)
                 hgr_case(rep, text, tmp, style)
